@@ -35,5 +35,48 @@ def apply(ctx, W):
     for k, ctor in ((1, "ConstPointer"), (2, "MutPointer")):
         closure_annot(ctx, tr, u, closure_of_call(tr, fn, "map", k), params=["t: Type"], ret="o: Type", ensures=["o == Type::%s(Box::new(t))" % ctor], tags=("C11",))
     closure_annot(ctx, tr, u, closure_of_call(tr, fn, "map", 3), params=["t: Type"], ret="o: Type", ensures=["o == Type::Array(Box::new(t), *size)"], tags=("C11",))
-    fn_into_verus(ctx, tr, "TypeRegistry::resolve_string", mode="T", ret="r", tags=("C11", "C19", "C10"),
-                  ensures=["r == spec_resolve_string(self, scope@, name@)"])
+    # ---- TypeRegistry::resolve_string (C11): partition / rfind / once-chain pipeline against the precedence list
+    fn, u = fn_into_verus(ctx, tr, "TypeRegistry::resolve_string", ret="r", tags=("C11", "C19", "C10", "C12"),
+                          ensures=[("r == spec_resolve_string(self, scope@, name@)", ("C11", "C19", "C10"), "resolve-string")])
+    part = tr.method_calls(fn, "partition")
+    finds = tr.method_calls(fn, "find")
+    if len(part) != 1 or len(finds) != 2:
+        raise rules.WeaveError("resolve_string: expected one partition and two find calls")
+    rules.iter_partition(tr, part[0], "type_marks(self, scope@)")
+    closure_annot(ctx, tr, u, closure_of_call(tr, fn, "partition"), params=["ip: &&ItemPath"], ret="b: bool",
+                  ensures=["b == self.types@.contains_key(**ip)"], tags=("C11",))
+    f_outer = [f for f in finds if any(c["kind"] == "method_call" and c["method"] == "rev" for c in tr.children.get(f["id"], []))]
+    f_inner = [f for f in finds if f not in f_outer]
+    if len(f_outer) != 1 or len(f_inner) != 1:
+        raise rules.WeaveError("resolve_string: find calls have an unexpected shape")
+    rules.into_iter_rev_find(tr, f_outer[0], "name_marks(scope_types@, name@)")
+    cl_outer = [c for c in tr.closures(fn) if c["span"] == f_outer[0]["args"][0]["span"]][0]
+    closure_annot(ctx, tr, u, cl_outer, params=["st: &&ItemPath"], ret="b: bool", ensures=["b == last_seg_is(**st, name@)"], tags=("C11",))
+    maps = tr.method_calls(fn, "map")
+    m_asstr = [m for m in maps if "as_str" in tr.text(m["args"][0]["span"])]
+    m_raw_clone = [m for m in maps if "clone" in tr.text(m["args"][0]["span"]) and m["args"][0]["is_closure"]]
+    m_eta = [m for m in maps if m["args"][0]["is_path"]]
+    if not (len(m_asstr) == len(m_raw_clone) == len(m_eta) == 1):
+        raise rules.WeaveError("resolve_string: map calls have an unexpected shape")
+    closure_annot(ctx, tr, u, [c for c in tr.closures(fn) if c["span"] == m_asstr[0]["args"][0]["span"]][0],
+                  params=["i: &crate::grammar::ItemPathSegment"], ret="s: &str", ensures=["s@ == i.0@"], tags=("C11",))
+    closure_annot(ctx, tr, u, [c for c in tr.closures(fn) if c["span"] == m_raw_clone[0]["args"][0]["span"]][0],
+                  params=["ip: &ItemPath"], ret="t: Type", ensures=["t == Type::Raw(*ip)"], tags=("C11",))
+    US = "({ let e = spec_empty_path(); joined(seq![&e] + scope_modules@, name@) })"
+    PS = "({ let e = spec_empty_path(); key_marks(self, joined(seq![&e] + scope_modules@, name@)) })"
+    rules.once_chain_map_find(tr, f_inner[0], US, PS)
+    mp_join = [m for m in maps if "join" in tr.text(m["args"][0]["span"])][0]
+    closure_annot(ctx, tr, u, [c for c in tr.closures(fn) if c["span"] == mp_join["args"][0]["span"]][0],
+                  params=["ip: &ItemPath"], ret="p: ItemPath", ensures=["p == spec_join(*ip, name@)"], tags=("C11",))
+    closure_annot(ctx, tr, u, [c for c in tr.closures(fn) if c["span"] == f_inner[0]["args"][0]["span"]][0],
+                  params=["ip: &ItemPath"], ret="b: bool", ensures=["b == self.types@.contains_key(*ip)"], tags=("C11",))
+    eta = [n for n in tr.in_fn(fn, ("path",)) if n["span"] == m_eta[0]["args"][0]["span"]][0]
+    rules.eta_ctor(tr, eta, "p__", "ItemPath", "Type::Raw(p__)", "t: Type", "t == Type::Raw(p__)")
+    oe = closure_of_call(tr, fn, "or_else")
+    closure_annot(ctx, tr, u, oe, ret="o: Option<Type>", ensures=["""o == ({
+                let e = spec_empty_path(); let us = joined(seq![&e] + scope_modules@, name@);
+                match first_true(key_marks(self, us), us.len() as int) { Some(j) => Some(Type::Raw(us[j])), None => None::<Type> } })"""], tags=("C11",))
+    ghost(ctx, tr, u, after(tr, tr.top_let(fn, "scope_types")), "proof { lemma_resolve_op_is_decl(self, scope@, name@); }")
+
+    fn_into_verus(ctx, tr, "TypeRegistry::padding_type", ret="r", tags=("C01", "C02", "C12"), requires=["reg_wf(self)"],
+                  ensures=[("r == pad_type(bytes as nat)", ("C01",), "padding-type")])
